@@ -24,9 +24,10 @@ ASSUMPTIONS = [
 A_MIX = ["[C]", "[=C]", "[O]", "[Ring1]", "[Branch1]",
          "[Branch1_1]", "[Branch1_2]", "[Branch2_3]", "[Expl=Ring1]", "[Expl#Ring2]", "[Expl/Ring1]", "[Expl\\Ring1]",
          "[Cexpl]", "[C@@Hexpl]", "[N+expl]", "[=O+expl]", "[/Cexpl]"]
-A_MIX2 = ["[C]", "[N]", "[Branch1_3]", "[Branch3_1]", "[Expl=Ring2]", "[Expl/Ring2]", "[=13CH2expl]", "[\\N-expl]",
-          "[Fe++expl]", "[cexpl]", "[Xxexpl]", "[Branch1_4]", "[ExplRing1]", "[expl]", "[O-2expl]", "."]
-ALPH = {"mix": A_MIX, "mix2": A_MIX2}
+A_MIX2 = ["[C]", "[#N]", "[Branch1_3]", "[Branch3_1]", "[Expl=Ring2]", "[Expl/Ring2]", "[=13CH2expl]", "[\\N-expl]",
+          "[Fe++expl]", "[cexpl]", "[Xxexpl]", "[Branch1_4]", "[ExplRing1]", "[nop]", "[O-2expl]", "."]
+A_MIX3 = ["[C]", "[=C]", "[#C]", "[S]", "[Branch1_1]", "[Branch1_2]", "[Branch1_3]", "[Expl=Ring1]", "[Expl#Ring1]", "[Ring1]"]
+ALPH = {"mix": A_MIX, "mix2": A_MIX2, "mix3": A_MIX3}
 
 ATOM_GRID = []
 for b in ("", "=", "#", "/", "\\"):
@@ -40,7 +41,8 @@ for b in ("", "=", "#", "/", "\\"):
 
 def plan(tier, seed):
     thorough = tier == "thorough"
-    grid = [("mix", "default", 5 if thorough else 4), ("mix2", "default", 5 if thorough else 4)]
+    grid = [("mix", "default", 5 if thorough else 4), ("mix2", "default", 5 if thorough else 4),
+            ("mix3", "default", 7 if thorough else 6)]
     extras = [("mix", "mix", 3), ("mix2", "hypervalent", 3), ("mix", "big", 3)]
     grid.append(extras[seed % len(extras)])
     scopes, tasks = [], []
@@ -137,10 +139,19 @@ def run(task):
         syms += ["[Expl%sRing%d]" % (b, L) for b in "=#/\\" for L in (1, 2, 3)]
         digs = ["[C]", "[Ring1]", "[Branch1_1]", "[O]"]
         import itertools
+        # tails with multiple bonds, so that both the branch's initial state and the state left on the main chain
+        # (which depend on M of [BranchL_M] / the bond of [Expl<B>RingL]) are observable
+        tails = (("[O]", "[N]", "[F]"), ("[#C]", "[=O]"), ("[=C]", "[#N]"))
         for x in syms:
             for d in itertools.product(digs, repeat=3):
-                for head in (("[C]", "[C]", "[C]"), ("[S]",), ()):
-                    check(head + (x,) + d + ("[O]", "[N]", "[F]"), table, r)
+                for head in (("[C]", "[C]", "[C]"), ("[S]",), ("[C]",), ("[P]", "[C]"), ()):
+                    for tail in tails:
+                        check(head + (x,) + d + tail, table, r)
+            for body in (("[#C]",), ("[=C]", "[=C]"), ("[#N]",)):
+                for tail in tails:
+                    for head in (("[C]",), ("[S]",), ("[N]",)):
+                        check(head + (x, "[C]") + body + tail, table, r)
+                        check(head + (x, "[Ring1]") + body + tail, table, r)
         r.sample({"scope": scope, "selfies": "[C][C][C][Branch2_3][Ring1][Branch1_1][O][O][N][F]"}, 1)
     else:
         _, lo, hi = arg
